@@ -57,6 +57,8 @@ def cases(tier):
             C.append({"kind": "hand", "which": "leaky_tanh", "dim": dim, "orient": orient})
             C.append({"kind": "hand", "which": "triaffine_leaky", "dim": dim, "orient": orient})
         C.append({"kind": "hand", "which": "planar", "dim": dim, "orient": "as_is"})
+        for orient in ("as_is", "inverted"):  # scalar scale broadcast against a vector loc (and a location-scale base built the same way)
+            C.append({"kind": "hand", "which": "affine_scalar_scale", "dim": dim, "orient": orient})
         # planar layers with O(1) weights (|w| > 1, w.u of both signs): the regime in which the invertibility projection of u matters
         C.append({"kind": "hand", "which": "planar_big_tanh", "dim": dim, "orient": "as_is"})
         C.append({"kind": "hand", "which": "planar_big_leaky", "dim": dim, "orient": "as_is"})
@@ -211,6 +213,9 @@ def run_shard(shard):
                          B.Affine(jnp.zeros(dim), jnp.full((dim,), 2.0))])
         elif c["which"] == "planar":
             b = B.Invert(B.Chain([B.Planar(k[0], dim=dim, negative_slope=0.3), B.Planar(k[1], dim=dim, negative_slope=0.6)]))
+        elif c["which"] == "affine_scalar_scale":
+            base = D.Normal(jr.normal(k[2], (dim,)), 1.7)
+            b = B.Chain([B.Affine(jr.normal(k[0], (dim,)), 2.5), B.LeakyTanh(2.0, (dim,)), B.Affine(jnp.zeros(dim), jnp.asarray(0.4))])
         elif c["which"] in ("planar_big_tanh", "planar_big_leaky"):
             ns = None if c["which"].endswith("tanh") else 0.3
             def big(kk):
